@@ -312,10 +312,14 @@ def run_item(item) -> Acc:
         if item.get("literals"):
             big_hex, big_dec = "0x" + "f" * 5000, "9" * 5000
             if lang == "py":
+                gens.append(("open-docstring-blanks-20000", '"""' + " " * 20000 + "\ndef f():\n    return 1\n"))
+                gens.append(("long-digit-string-20000", 'def f(mode):\n    if mode == "' + "9" * 20000 + 'x" or mode == "b":\n        return 1\n    return pick("' + "9" * 20000 + 'x")\n'))
                 gens.append(("huge-int-hex-5000", f"LIMIT = 10\n\n\ndef f():\n    return {big_hex}\n"))
                 gens.append(("huge-int-dec-5000", f"def f():\n    return {big_dec}\n"))
                 gens.append(("lone-surrogate-escape-1", 'def f(mode):\n    if mode == "\\udc80" or mode == "plain":\n        return 1\n    return pick("\\udc80")\n'))
             elif lang == "ts":
+                gens.append(("open-jsdoc-blanks-20000", "/**" + " " * 20000 + "\nexport function f() {\n  return 1;\n}\n"))
+                gens.append(("open-block-comment-stars-20000", "/*" + "*" * 20000 + "\nexport function f() {\n  return 1;\n}\n"))
                 gens.append(("huge-int-hex-5000", f"export function f() {{\n  return {big_hex};\n}}\n"))
                 gens.append(("huge-int-dec-5000", f"export function f() {{\n  return {big_dec};\n}}\n"))
                 gens.append(("lone-surrogate-escape-1", 'export function f(mode: string) {\n  if (mode === "\\udc80" || mode === "plain") {\n    return 1;\n  }\n  return pick("\\udc80");\n}\n'))
@@ -377,7 +381,7 @@ def run_item(item) -> Acc:
 
 def replay_case(case) -> list[dict]:
     acc = Acc()
-    if case.get("kind") == "size" and ("huge-int" in case["generator"] or "lone-surrogate" in case["generator"]):
+    if case.get("kind") == "size" and any(x in case["generator"] for x in ("huge-int", "lone-surrogate", "open-", "long-digit")):
         a = run_item({"kind": "size", "lang": case["lang"], "levels": [], "widths": [], "literals": True})
         return [f for f in a.failures if f["case"].get("generator") == case["generator"] and f["case"].get("cmd") == case["cmd"]]
     if case.get("kind") == "size":
